@@ -55,12 +55,18 @@ def check(ctx):
 
     # ---------------------------------------------------------------- EFF-1
     want = sorted(tables.C17_EDITORS)
+    missing_ed = sorted(set(want) - set(decorated))
+    extra_ed = sorted(set(decorated) - set(want))
+    # every editor the statement names must mark; a FURTHER method that marks (a new in-place editor following the same
+    # convention) keeps the discipline -- whether a method that writes items is decorated is decided per method below
     ctx.ob("EFF-1", cls.qualname, "set of @deco.obsoletes methods", f"{cls.module.path}:{cls.node.lineno}",
-           decorated == want,
-           f"decorated {decorated} == editors named by the property statement" if decorated == want else
-           f"decorated set {decorated} differs from the statement's editors {want}: "
-           f"missing {sorted(set(want) - set(decorated))}, extra {sorted(set(decorated) - set(want))}",
+           not missing_ed,
+           f"every editor named by the property statement is decorated ({decorated})"
+           + (f"; further decorated methods {extra_ed}" if extra_ed else "") if not missing_ed else
+           f"editors named by the statement but not decorated with @deco.obsoletes: {missing_ed}",
            nontrivial=False, clause="editors mark receiver and ancestors obsolete")
+    if extra_ed:
+        ctx.note(f"EFF-1: methods decorated @deco.obsoletes beyond the statement's list: {extra_ed}")
     for m in methods:
         summ = I.summary(m)
         n_yields += len(summ.yields) if m in gens else 0
